@@ -46,6 +46,14 @@ def main():
     args = ap.parse_args()
     only = set(args.only.split(",")) if args.only else None
     results = []
+    kept = []
+    if args.json and (only or args.prop) and os.path.exists(args.json):
+        # partial run: keep the rows of the mutants / properties not being re-run
+        try:
+            kept = [r for r in json.load(open(args.json))
+                    if not ((only is None or r["mutant"] in only) and (args.prop is None or r["prop"] == args.prop))]
+        except Exception:
+            kept = []
     catalogue = MUTANTS
     if args.benign:
         from benign_catalogue import BENIGN
@@ -92,11 +100,11 @@ def main():
                 if r.returncode not in (0, 1):
                     print(r.stdout[-1500:], r.stderr[-1500:])
                 if args.json:
-                    json.dump(results, open(args.json, "w"), indent=1)
+                    json.dump(kept + results, open(args.json, "w"), indent=1)
         finally:
             shutil.rmtree(tmp, ignore_errors=True)
     if args.json:
-        json.dump(results, open(args.json, "w"), indent=1)
+        json.dump(kept + results, open(args.json, "w"), indent=1)
     missed = [r for r in results if not r["caught"]]
     if args.benign:
         alarms = [r for r in results if r["caught"] or r["rc"] not in (0, 1)]
